@@ -16,11 +16,11 @@ from fsmc.ref import mesh as RM
 PID = "C19"
 RULE = ("configurations of (lattice family, size, jitter pattern, helper ring, cut-off, pose) within the deviation bound; "
         "non-trivial = at least two cells sharing a ridge; classes = (family, size, ring, cut-off level, pose)")
-BOUND = {"quick": "deviation bound 2 around the centre of 7 families (square, two hexagonal, jittered, scattered, planted triangle, square with ridges a few thousandths long) with sizes 3x3..6x6 and poses incl. pixel-like coordinates far from the origin, plus one 300-point set",
+BOUND = {"quick": "deviation bound 2 around the centre of 7 families (square, two hexagonal, jittered, scattered, planted triangle, square with ridges a few thousandths long) with sizes 3x3..6x6 and poses incl. pixel-like coordinates far from the origin, plus one 300-point set; in two of three centre orders the judged lattice is the second one built from the same element dictionaries",
          "thorough": "deviation bound 3, sizes up to 10x10 and 300 points with all poses"}
 ASSUMPTIONS = ["the reference reads the same scipy.spatial.Voronoi diagram (regions, vertices) but interprets it independently",
                "corners that coincide after rounding to three decimals are one vertex (degenerate Voronoi vertices of exact lattices)"]
-REQUIRED_TAGS = {"all": ["vertical_ridge", "exact_square", "exact_hex", "jittered", "ring", "cutoff_drops", "shared_ridge", "n>=200", "triangular_region", "random", "short_ridges", "far_from_origin"]}
+REQUIRED_TAGS = {"all": ["vertical_ridge", "exact_square", "exact_hex", "jittered", "ring", "cutoff_drops", "shared_ridge", "n>=200", "triangular_region", "random", "short_ridges", "far_from_origin", "built_twice"]}
 
 
 def centres(spec):
@@ -180,6 +180,20 @@ class Tessellations(ProductSystem):
                 return {"viol": [], "known": known, "tags": tags, "cls": "F5"}
             return {"viol": [{"what": "building the lattice raised", "detail": {"exc": fsutil.exc_str(ex), "n": len(pts)}}], "tags": tags, "cls": "exc"}
         v, e, c = res
+        # the element dictionaries are the user's data: building the lattice from them a second time must give the same lattice
+        first_sig = sorted((cid, tuple((round(float(w.x), 6), round(float(w.y), 6)) for w in cc.vertices)) for cid, cc in c.items())
+        if cfg.get("corder") != "interleaved":
+            v = e = c = res = None
+            res, ex = fsutil.call(ft.create_lattice, *els)
+            if ex is not None:
+                return {"viol": [{"what": "building the lattice a second time from the same elements raised", "detail": fsutil.exc_str(ex)}], "tags": tags, "cls": "exc"}
+            v, e, c = res
+            tags.append("built_twice")
+            second_sig = sorted((cid, tuple((round(float(w.x), 6), round(float(w.y), 6)) for w in cc.vertices)) for cid, cc in c.items())
+            if second_sig != first_sig:
+                nd = sum(1 for a, b in zip(first_sig, second_sig) if a != b) if len(first_sig) == len(second_sig) else -1
+                viol.append({"what": "building the lattice twice from the same element dictionaries gives two different lattices (the judged one is the second)",
+                             "detail": {"cells_first": len(first_sig), "cells_second": len(second_sig), "cells_that_differ": nd}})
         exp = [canon(cy) for cy in ref if cy is not None and len(cy) >= 3]
         if any(len(x) == 3 for x in exp):
             tags.append("triangular_region")
